@@ -9,6 +9,7 @@ import (
 	"bytes"
 	"crypto"
 	"crypto/ecdsa"
+	"crypto/ed25519"
 	"crypto/elliptic"
 	"crypto/hmac"
 	"crypto/rand"
@@ -34,6 +35,25 @@ type c06Key struct {
 	kind string // P-256 | P-384 | P-521 | RSA
 	ec   *ecdsa.PrivateKey
 	rs   *rsa.PrivateKey
+	ed   ed25519.PrivateKey
+}
+
+var (
+	c06EdOnce sync.Once
+	c06EdPriv *c06Key
+)
+
+// c06EdKey is an Ed25519 key (EdDSA is NOT an allowed transaction algorithm): kept out of the pool of c06Keys, whose
+// members all sign with allowed algorithms.
+func c06EdKey() *c06Key {
+	c06EdOnce.Do(func() {
+		_, priv, err := ed25519.GenerateKey(rand.Reader)
+		if err != nil {
+			panic(err)
+		}
+		c06EdPriv = &c06Key{slot: 100, kind: "Ed25519", ed: priv}
+	})
+	return c06EdPriv
 }
 
 var (
@@ -66,6 +86,9 @@ func c06Keys() []*c06Key {
 }
 
 func (k *c06Key) public() crypto.PublicKey {
+	if k.ed != nil {
+		return k.ed.Public().(ed25519.PublicKey)
+	}
 	if k.ec != nil {
 		return &k.ec.PublicKey
 	}
@@ -80,6 +103,8 @@ func (k *c06Key) naturalAlg(sel uint32) string {
 		return "ES384"
 	case "P-521":
 		return "ES512"
+	case "Ed25519":
+		return "EdDSA"
 	}
 	return []string{"PS256", "PS384", "PS512"}[sel%3]
 }
@@ -88,6 +113,13 @@ func c06B64(b []byte) string { return base64.RawURLEncoding.EncodeToString(b) }
 
 // jwk renders the key as a JWK member map (public, or private when asked).
 func (k *c06Key) jwk(private bool) map[string]any {
+	if k.ed != nil {
+		m := map[string]any{"kty": "OKP", "crv": "Ed25519", "x": c06B64(k.ed.Public().(ed25519.PublicKey))}
+		if private {
+			m["d"] = c06B64(k.ed.Seed())
+		}
+		return m
+	}
 	if k.ec != nil {
 		size := (k.ec.Curve.Params().BitSize + 7) / 8
 		m := map[string]any{"kty": "EC", "crv": k.kind,
@@ -129,6 +161,11 @@ func c06Digest(alg string, input []byte) []byte {
 // c06SignRaw signs input as JWS algorithm alg with key k (nil when the combination is impossible).
 func c06SignRaw(alg string, k *c06Key, input []byte) []byte {
 	switch {
+	case alg == "EdDSA":
+		if k.ed == nil {
+			return nil
+		}
+		return ed25519.Sign(k.ed, input)
 	case strings.HasPrefix(alg, "ES"):
 		if k.ec == nil {
 			return nil
@@ -170,6 +207,9 @@ func c06SignRaw(alg string, k *c06Key, input []byte) []byte {
 // c06VerifyRaw is the independent signature check (lenient on signature length: r||s split in the middle).
 func c06VerifyRaw(alg string, pub crypto.PublicKey, input, sig []byte) bool {
 	switch {
+	case alg == "EdDSA":
+		p, ok := pub.(ed25519.PublicKey)
+		return ok && len(p) == ed25519.PublicKeySize && ed25519.Verify(p, input, sig)
 	case strings.HasPrefix(alg, "ES"):
 		p, ok := pub.(*ecdsa.PublicKey)
 		if !ok || len(sig) == 0 || len(sig)%2 != 0 {
@@ -384,6 +424,16 @@ func c06JWKPublic(v any) (pub crypto.PublicKey, private bool, err error) {
 		return nil, private, errors.New("ambiguous kty")
 	}
 	switch kty {
+	case "OKP":
+		if m["crv"] != "Ed25519" {
+			return nil, private, fmt.Errorf("unsupported OKP curve %v", m["crv"])
+		}
+		xs, _ := m["x"].(string)
+		xb, err := c06LenientB64(xs)
+		if err != nil || len(xb) != ed25519.PublicKeySize {
+			return nil, private, errors.New("jwk.x is not an Ed25519 public key")
+		}
+		return ed25519.PublicKey(xb), private, nil
 	case "EC":
 		var c elliptic.Curve
 		switch m["crv"] {
@@ -479,4 +529,35 @@ func c06SerialisationKind(data []byte) string {
 		}
 	}
 	return ""
+}
+
+// c06HMAC signs with a symmetric key (HS256/384/512).
+func c06HMAC(alg string, secret, input []byte) []byte {
+	m := hmac.New(c06AlgHash(alg).New, secret)
+	m.Write(input)
+	return m.Sum(nil)
+}
+
+// c06AlgKeyMismatch says "" when alg is defined for the key (RFC 7518: ES256/P-256, ES384/P-384, ES512/P-521, PS* and RS* RSA,
+// EdDSA Ed25519), else the kind of key that was used.
+func c06AlgKeyMismatch(alg string, pub crypto.PublicKey) string {
+	switch p := pub.(type) {
+	case *ecdsa.PublicKey:
+		name := p.Curve.Params().Name
+		if want := map[string]string{"ES256": "P-256", "ES384": "P-384", "ES512": "P-521"}[alg]; want == name {
+			return ""
+		}
+		return name
+	case *rsa.PublicKey:
+		if strings.HasPrefix(alg, "PS") || strings.HasPrefix(alg, "RS") {
+			return ""
+		}
+		return "RSA"
+	case ed25519.PublicKey:
+		if alg == "EdDSA" {
+			return ""
+		}
+		return "Ed25519"
+	}
+	return fmt.Sprintf("%T", pub)
 }
